@@ -119,7 +119,28 @@ def coord_stamp_on_flattened_bottom_level(case):
     return False
 
 
-EXCLUDED = {"partitioned_rank_iterated_output_only": partitioned_rank_iterated_output_only,
+def flattened_output_explicit_shape(case):
+    """
+    F-C06-3: in metrics mode the output tensor is always constructed with an explicit shape=[...]; for an output that
+    carries every rank of a flatten() tuple (so that it is flattened itself) the shape entry of the flattened rank is the
+    rank's NAME used as a variable (Tensor(rank_ids=["IJ"], shape=[IJ])), which nothing binds.
+    """
+    spec = case.get("spec") or {}
+    if not (spec.get("extra") or {}).get("architecture"):
+        return False
+    decl = S.decl_of(spec)
+    for e in spec["exprs"]:
+        out = S.out_name(e)
+        for key, dirs in (spec.get("partitioning") or {}).get(out, []):
+            if key.startswith("("):
+                roots = [x.strip().rstrip("0123456789") for x in key.strip("()").split(",")]
+                if all(r in decl[out] for r in roots):
+                    return True
+    return False
+
+
+EXCLUDED = {"flattened_output_explicit_shape": flattened_output_explicit_shape,
+            "partitioned_rank_iterated_output_only": partitioned_rank_iterated_output_only,
             "coord_stamp_on_flattened_bottom_level": coord_stamp_on_flattened_bottom_level}
 
 
